@@ -49,6 +49,8 @@ def raw_index_sinks(ctx, f):
 
 def run(ctx, rep):
     ix, T = ctx.ix, ctx.typer
+    from .common import check_scope_discipline
+    check_scope_discipline(ctx, rep, "C06.6", "C06.7", "C06.8")
     from .common import check_symbolic_qubits_left_alone
     check_symbolic_qubits_left_alone(ctx, rep, "C06.5")
     S = ctx.strict
